@@ -18,6 +18,7 @@ ASSUMPTIONS = ["reference NFA semantics (vlib/ref_fa.py) is the textbook definit
                "words containing the epsilon spelling are only sent to EpsilonNFA.accepts (documented there)",
                "sizes bounded: <=5 states in the random tier; exhaustive scopes as stated"]
 BUDGET = {"quick": 1200, "thorough": 8000}
+FUZZ = {"procs": 4, "runs": 20000}      # atheris supplement of the thorough tier (vlib/fuzz.py)
 WATCHDOG = 20
 EXHAUSTIVE_SCOPE = {
     "quick": "all 4096 epsilon-NFAs with 2 states over {a, eps} and every start/final marking",
